@@ -145,7 +145,7 @@ Inductive event :=
   | EBody (c : N)                (* client c delivers the rest of the declared body *)
   | EClose (c : N)               (* client c closes without having sent anything *)
   | ERelease (c : N)             (* the handler of c returns, the response is written, the thread closes worker_socket *)
-  | EStop                        (* the other end of the shutdown socket is closed *)
+  | EStop                        (* an exit signal: the other end of the shutdown socket is closed (again) *)
   | TRead (c : N)                (* thread of c reads what the client sent and runs http.server + gate *)
   | TBody (c : N)                (* thread of c, inside the handler, has read the complete body *)
   | TTimeout (c : N)             (* socket.timeout in the thread of c: while it waits for the head or for the body *)
@@ -312,7 +312,9 @@ Definition step (cfg : config) (s : state) (e : event) : option (state * list ob
       | None => None
       end
   | EStop =>
-      if stop s then None else
+      (* an exit signal runs shutdown_signal_handler: shutdown_socket.close().  Idempotent: closing the closed socket
+         again (a second / third exit signal while draining) changes nothing (Model/ServerMain.v) *)
+      if stop s then Some (s, []) else
       Some (mkS (pc s) (workers s) (backlog s) true (next_id s) (finished s) (accepted s) (entered s), [])
   | TRead c =>
       match find_w c (workers s) with
